@@ -375,7 +375,7 @@ pub fn replay_case(c: &Value, acc: &mut Acc) {
 pub fn run(tier: &str) -> ! {
     let mut rep = Report::new("C14", tier);
     crate::dom::quiet_panics();
-    let (max_len, lit_len, pair_len) = if rep.is_thorough() { (6, 6, 3) } else { (5, 5, 2) };
+    let (max_len, lit_len, pair_len) = if rep.is_thorough() { (7, 6, 3) } else { (5, 5, 2) };
     let total = count_strings(ALPHA.len(), max_len);
     let chunk = 512u64;
     let shards = ((total + chunk - 1) / chunk) as usize;
